@@ -162,6 +162,12 @@ def build_constraint(values: dict, form="scalar", masks=None):
                 rest.append((pre + (lst[0][0],) + post, lst[0][1]))
                 continue
             lst.sort(key=lambda t: t[0])
+            # index arrays need not be sorted: permute them (deterministically per content)
+            import zlib
+
+            prm = np.random.default_rng(zlib.crc32(repr((pre, post, [i for i, _ in lst])).encode()))
+            if prm.random() < 0.6:
+                lst = [lst[j] for j in prm.permutation(len(lst))]
             idxs = jnp.asarray([i for i, _ in lst], dtype=jnp.int32)
             vals = _real_value(np.stack([np.asarray(v) for _, v in lst]))
             b = C
